@@ -194,9 +194,11 @@ func newton_root(f objective_root, x ConstVector,
 
     // this is a simplified line search that tries to
     // satisfy the constraints
-    for {
+    for k := 0; ; k++ {
       x2.VsubV(x1, t1)
-      if Vequals(x1, x2) {
+      // (a step of subnormal size is not reduced any further by the
+      // multiplication below)
+      if Vequals(x1, x2) || k > 10000 {
         return x1, fmt.Errorf("line search failed")
       }
       // check constraints
@@ -307,9 +309,11 @@ func newton_min(
         x2.VsubV(x1, t1)
       }
     } else {
-      for {
+      for k := 0; ; k++ {
         x2.VsubV(x1, t1)
-        if Vequals(x1, x2) {
+        // (a step of subnormal size is not reduced any further by the
+        // multiplication below)
+        if Vequals(x1, x2) || k > 10000 {
           return x1, fmt.Errorf("line search failed")
         }
         // check constraints
